@@ -14,7 +14,7 @@ PY = "/venv/bin/python"
 EXPECTED_TO_FAIL = {"ref-B": "SHADEDeme.run_metaepoch rewritten with a `stopped_by_gsc` flag and `break`: the statement compiler has no `break`"}
 TARGETS = ("Proofs/GenEquivCommon.vo Proofs/GenEquivProblem.vo Proofs/GenEquivEntropy.vo Proofs/DriverCode.vo Proofs/GenEquivStops.vo Proofs/GenEquivLevelLimit.vo "
            "Proofs/GenEquivDemeLimit.vo Proofs/GenEquivFar.vo Proofs/GenEquivAccessors.vo Proofs/GenEquivPop.vo Proofs/GenEquivGenerators.vo Proofs/GenEquivMechanism.vo "
-           "Proofs/GenEquivOps.vo Proofs/GenEquivCtor.vo Proofs/GenEquivMinimize.vo Proofs/GenEquivIds.vo Proofs/GenEquivOrder.vo Proofs/GenEquivNBC.vo Proofs/GenEquivPersist.vo Proofs/GenEquivCma.vo")
+           "Proofs/GenEquivOps.vo Proofs/GenEquivCtor.vo Proofs/GenEquivMinimize.vo Proofs/GenEquivIds.vo Proofs/GenEquivOrder.vo Proofs/GenEquivNBC.vo Proofs/GenEquivPersist.vo Proofs/GenEquivDirection.vo")
 
 
 def sh(cmd, cwd=None, env=None, timeout=3000):
